@@ -17,7 +17,8 @@ RULE = ("A Flow over a zoo transform (1-4 features, composites, context) with St
         "and the CDF obtained by cumulative Gauss-Legendre quadrature of exp(log_prob) (p=1e-9; total mass must be 1 +- 1e-3, "
         "else inconclusive). (d) transform_to_noise(sample) follows N(0,1) per coordinate (KS). Non-trivial: >= 2 distinct "
         "context rows, or n >= 2, or a KS test ran. MADE-mixture bases also with narrow components (unconstrained std lowered by 3 or 5), as "
-        "base of the 1-D KS flows and per context row (block i against the mixture conditioned on row i). Distinct = distinct case JSON.")
+        "base of the 1-D KS flows and per context row (block i against the mixture conditioned on row i). "
+        "log_prob of the drawn points must agree between the flow that has sampled and a never-used copy of it (1e-6). Distinct = distinct case JSON.")
 ASSUMPTIONS = ["cubic-spline transforms are excluded from the pairing test (their declared inverse approximation would dominate the tolerance)",
                "statistical tests reject at p = 1e-9 with fixed seeds"]
 EXPLANATION = "generated"
